@@ -92,7 +92,7 @@ public:
                 it++;
             } else {
                 P v = (boost::get<1>(entry) * boost::get<1>(v_entry)) % p;
-                res = (res + v) % p;
+                res = res + v;                      // R18g positive: accumulator not reduced per step
                 it++;
                 v_it++;
             }
